@@ -270,7 +270,8 @@ def items_from_cfgs(cfgs, tier, traits_filter=None, entries=("attr", "derive"), 
         if rotate:
             shp = [shp[ci % len(shp)]]          # quick tier: one shape per configuration, rotating
         if pv and set(D) <= {"PartialEq", "PartialOrd"}:
-            shp = shp + cf.pv_shapes()
+            pvs = cf.pv_shapes()
+            shp = shp + ([pvs[ci % len(pvs)]] if rotate else pvs)
         for stag, build in shp:
             for entry in ents:
                 items.append((build(c["c"]), D, entry, stag, c["c"]))
@@ -296,7 +297,7 @@ def c01(tier):
     ck = dx.Check("C01", tier)
     cfgs, st = mc_cfgs(ck, tier)
     cmp_only = lambda D: "Hash" not in D
-    items = items_from_cfgs(cfgs, tier, cmp_only, pv=True)
+    items = items_from_cfgs(cfgs, tier, cmp_only, pv=True, rotate=(tier == "quick"))
     events, meta, stats = observe_runtime(ck, items, "distinct", False, "c01")
     n, bad, jst = dx.tlc_judge("Trace_Cmp", "Trace_Cmp.cfg", events, "c01", chunk=max(300, -(-len(events) // 12)))
     ck.add_judge(n, jst)
